@@ -97,8 +97,8 @@ Print Assumptions T04_right_credentials_accepted.
 Theorem T04_localhost_complete : forall idna aliases host,
   target_is_local idna aliases host = true <-> is_localhost idna aliases host = true.
 Proof.
-  exact (fun i a h => conj (localhost_complete i a h (proj1 ob_localhost_maps_idna) ob_localhost_strips_zone ob_localhost_checks_unspecified)
-                           (localhost_sound i a h (proj1 ob_localhost_maps_idna) ob_localhost_strips_zone)).
+  exact (fun i a h => conj (localhost_complete i a h (proj1 ob_localhost_maps_idna) (proj1 ob_trailing_dot) ob_localhost_strips_zone ob_localhost_checks_unspecified)
+                           (localhost_sound i a h (proj1 ob_localhost_maps_idna) (proj1 ob_trailing_dot) ob_localhost_strips_zone)).
 Qed.
 Print Assumptions T04_localhost_complete.
 
@@ -121,8 +121,8 @@ Theorem T04_model_meets_oracle : forall cfg e q,
   xcase_prop_ok {| x_cfg := cfg; x_env := e; x_req := q; x_obs := predicted_obs cfg e q |} = true.
 Proof.
   exact (model_meets_oracle ob_basic_prefix ob_security_before_stack ob_status_map
-           (proj1 ob_localhost_maps_idna) ob_localhost_strips_zone ob_localhost_checks_unspecified
-           (proj2 ob_localhost_maps_idna) ob_challenge_present ob_challenge_basic_prefix).
+           (proj1 ob_localhost_maps_idna) ob_localhost_strips_zone (proj1 ob_trailing_dot) (proj2 ob_trailing_dot)
+           ob_localhost_checks_unspecified (proj2 ob_localhost_maps_idna) ob_challenge_present ob_challenge_basic_prefix).
 Qed.
 Print Assumptions T04_model_meets_oracle.
 
@@ -138,9 +138,11 @@ Example T04_example :
   verdict_of cfg e {| r_method := b "CONNECT"; r_host := b "[::ffff:0.0.0.0]:443"; r_hdr := good |} = Deny CLocal /\
   verdict_of cfg e {| r_method := b "GET"; r_host := b "VM"; r_hdr := good |} = Deny CLocal /\
   verdict_of cfg e {| r_method := b "GET"; r_host := b "[::ffff:127.0.0.1%lo]:80"; r_hdr := good |} = Deny CLocal /\
+  verdict_of cfg e {| r_method := b "GET"; r_host := b "LocalHost.:8080"; r_hdr := good |} = Deny CLocal /\
+  verdict_of cfg e {| r_method := b "GET"; r_host := b "evil.test."; r_hdr := good |} = Deny CDeny /\
   verdict_of cfg e {| r_method := b "GET"; r_host := b "evil.test"; r_hdr := good |} = Deny CDeny /\
   verdict_of cfg e {| r_method := b "GET"; r_host := b "example.test";
                       r_hdr := [(b "Proxy-Authorization", [b "Basic dXNlcjpwYQ=="])] |} = Deny CAuth /\
   verdict_of cfg {| now_day := 2; now_hour := 17 |}
              {| r_method := b "GET"; r_host := b "example.test"; r_hdr := good |} = Deny CTime.
-Proof. exact (conj eq_refl (conj eq_refl (conj eq_refl (conj eq_refl (conj eq_refl (conj eq_refl eq_refl)))))). Qed.
+Proof. exact (conj eq_refl (conj eq_refl (conj eq_refl (conj eq_refl (conj eq_refl (conj eq_refl (conj eq_refl (conj eq_refl eq_refl)))))))). Qed.
